@@ -30,13 +30,15 @@ def alphabet(rows, idx=(0, 1, -1)):
     for i in idx:
         ops.append(['del', i])
     ops += [['delslice', 0, 1, None], ['delslice', 1, None, None], ['delslice', None, None, 2],
-            ['pop'], ['popi', 0], ['reverse'], ['clear'], ['slice', 0, 2], ['slice', 1, None], ['filter', 'id'],
+            ['pop'], ['popi', 0], ['reverse'], ['clear'], ['slice', 0, 2], ['slice', 1, None], ['slice', None, None], ['filter', 'id'],
+            # continue on the parent and keep the slice aside / the other way round: the two grids are independent
+            ['fork', None, None], ['fork', 0, 2],
             ['filter', 'v'], ['lookup', 'x1'], ['getlookup', 'never'], ['setid', 0, 'z9'], ['setid', -1, 'x1']]
     return ops
 
 
 def nontrivial(hist):
-    return any(o[0] in ('set', 'del', 'delslice', 'pop', 'popi', 'remove', 'clear', 'slice', 'filter', 'setid', 'reverse')
+    return any(o[0] in ('set', 'del', 'delslice', 'pop', 'popi', 'remove', 'clear', 'slice', 'filter', 'setid', 'reverse', 'fork')
                for o in hist)
 
 
@@ -65,13 +67,31 @@ def exec_history(hszinc, hist, version=None, counts=None, every=False):
             if probs:
                 sym, idk, what = probs[0]
                 return (sym, idk, 'after step %d %r: %s' % (step, op, what), st)
+            # the grids left behind by a derivation: untouched since, so their lookups still answer from their own rows
+            for other, rows_then, tag in st.others:
+                if not G.rows_identical(list(other), rows_then):
+                    return ('other-grid-changed', 'none', 'after step %d %r: the %s now has rows %r, had %r' % (
+                        step, op, tag, list(other), rows_then), st)
+                probs = G.observe_lookup(_Holder(other), rows_then, hszinc, box)
+                if counts is not None:
+                    counts['lookups on grids left behind'] = counts.get('lookups on grids left behind', 0) + 1
+                if probs:
+                    sym, idk, what = probs[0]
+                    st.derived.append(tag)
+                    return (sym, idk, 'after step %d %r, on the %s (not operated on since): %s' % (step, op, tag, what), st)
     return None
+
+
+class _Holder(object):
+    def __init__(self, g):
+        self.g = g
 
 
 def run_history(ctx, hszinc, hist, version=None, every=False):
     counts = {'lookups': 0}
     res = exec_history(hszinc, hist, version, counts, every)
     ctx.count('lookups compared', counts['lookups'])
+    ctx.count('lookup sweeps on grids left behind by slice/filter/fork', counts.get('lookups on grids left behind', 0))
     if res is None:
         return
     sym = res[0]
